@@ -48,8 +48,9 @@ func c13One(n int, pad byte, left bool, s []byte, variant string) (v *ev.Violati
 		}
 	}()
 	want := rm.FixText(s, n, pad, left)
-	buf := &bytes.Buffer{}
-	buf.Write([]byte{0xA5}) // prior content must stay
+	// a reused buffer: spare capacity holds stale non-zero bytes (as after Reset), one prior byte must stay
+	buf := bytes.NewBuffer(bytes.Repeat([]byte{0xAA}, 64+2*n)[:0])
+	buf.Write([]byte{0xA5})
 	var err error
 	switch variant {
 	case "scalar":
